@@ -51,6 +51,9 @@ K_CLOSURE = ("narrowed parameter read through a closure: a nested function/lambd
 K_NOTRUN_CALLEE = ("callee (or a function it calls) is also called on a source line that never executed: its body was "
                    "analysed under that call site and the memoised result is re-used (return type lacks the value)")
 
+K_AMBIG_STORE = ("attribute store through a name that may denote several objects is applied as a strong update to all "
+                 "of them: the object that was not the run-time target loses its own attribute value")
+
 CAPTURE = {}
 _installed = False
 
@@ -118,6 +121,9 @@ def _cls_name(data):
 
 
 def _matches(data, shape):
+  if shape.get("k") == "callable":
+    n = type(data).__name__
+    return "Function" in n or "Method" in n or n in ("NativeFunction", "BoundFunction", "StaticMethod", "ClassMethod")
   if shape.get("k") == "class":
     return getattr(data, "name", None) == shape.get("name") or str(getattr(data, "name", "")).endswith(
         "." + str(shape.get("name")))
@@ -570,3 +576,29 @@ def attr_store_callees(tree, attr, executed_lines):
           if nm:
             out.add(nm)
   return out
+
+
+def ambiguous_store_signature(ctx, defs, trace, tree, gname, attr, executed_lines):
+  """An executed `N.attr = ...` where the run-time object behind N is NOT the object of global `gname`,
+  while pytype's variable for N can denote gname's abstract instance."""
+  import ast
+  exitn = ctx.exitpoint
+  gshape = trace["globals"].get(gname, {})
+  if "id" not in gshape or gname not in defs:
+    return None
+  insts = [b.data for b in defs[gname].bindings if b.IsVisible(exitn)]
+  for st in ast.walk(tree):
+    if not (isinstance(st, ast.Assign) and st.lineno in executed_lines):
+      continue
+    for t in st.targets:
+      if isinstance(t, ast.Attribute) and t.attr == attr and isinstance(t.value, ast.Name):
+        n = t.value.id
+        if n == gname or n not in defs or n not in trace["globals"]:
+          continue
+        nshape = trace["globals"][n]
+        same_runtime_object = nshape.get("id") is not None and nshape.get("id") == gshape["id"]
+        if same_runtime_object:
+          continue
+        if any(any(bb.data is i for i in insts) for bb in defs[n].bindings):
+          return {"store_through": n, "line": st.lineno, "runtime_target_is_another_object": True}
+  return None
